@@ -18,9 +18,10 @@ RULE = ("SumScaler, VectorScaler, MaxAbsScaler, MinMaxScaler (criteria_range gri
         "0, new minimum 0, untouched columns). non-trivial = non-square matrix whose output differs from the input; "
         "distinct by hash")
 
-NAMES = ["SumScaler", "VectorScaler", "MaxAbsScaler", "MinMaxScaler", "StandarScaler", "PushNegatives",
+# MaxScaler is the deprecated (still public) alias of MaxAbsScaler: same documented normal form
+NAMES = ["SumScaler", "VectorScaler", "MaxAbsScaler", "MaxScaler", "MinMaxScaler", "StandarScaler", "PushNegatives",
          "AddValueToZero", "CenitDistanceMatrixScaler"]
-CODE = {"SumScaler": 0, "MaxAbsScaler": 1, "MinMaxScaler": 2, "PushNegatives": 3, "AddValueToZero": 4}
+CODE = {"SumScaler": 0, "MaxAbsScaler": 1, "MaxScaler": 1, "MinMaxScaler": 2, "PushNegatives": 3, "AddValueToZero": 4}
 TGT = {"matrix": 0, "weights": 1, "both": 2}
 
 
@@ -28,7 +29,7 @@ def gen_case(rng, name):
     cfg = T.config(rng, name)
     n, m = gen.shape(rng, 8, 5, 2, 1, force_nonsquare=1.0, big=0.0)
     mode = rng.choice(["dyadic", "int", "float"])
-    positive = name in ("SumScaler", "VectorScaler", "MaxAbsScaler") and rng.random() < 0.7
+    positive = name in ("SumScaler", "VectorScaler", "MaxAbsScaler", "MaxScaler") and rng.random() < 0.7
     mtx = gen.values(rng, n, m, mode, positive=positive)
     w = gen.weights(rng, m, rng.choice(["dyadic", "int", "float"]))
     if name == "PushNegatives":
